@@ -66,7 +66,7 @@ var methods = []string{"POST", "GET", "PUT", "DELETE", "HEAD", "OPTIONS", "PATCH
 var ctypes = []string{"application/json", "application/json; charset=utf-8", "text/plain", "", "application/x-www-form-urlencoded", "Application/JSON"}
 var browserHdr = []string{"setec", "", "other", "Setec", "setec "}
 var whoKinds = []string{"user", "tagged", "anonymous", "error", "plain-cap", "https-cap", "both-caps", "malformed-grant", "wrong-type-grant", "empty-grants", "no-caps", "bad-remote-addr", "restricted", "https-malformed", "plain-empty-https-malformed", "https-wrong-type", "plain-ok-https-malformed",
-	"tagged-with-owner-profile", "wide-grants", "wide-grants-2", "error-peer-not-found", "error-peer-not-found-wrapped", "error-deadline", "error-access-denied"}
+	"tagged-with-owner-profile", "wide-grants", "wide-grants-2", "wide-grants-3", "error-peer-not-found", "error-peer-not-found-wrapped", "error-deadline", "error-access-denied"}
 var bodyKinds = []string{"valid", "null", "empty-object", "truncated", "wrong-types", "extra-fields", "huge-version", "trailing-garbage", "empty", "whitespace", "not-json", "array", "lowercase-fields"}
 
 type req struct {
@@ -167,12 +167,17 @@ func whoAnswer(kind string) (resp *apitype.WhoIsResponse, err error, rules []ref
 		w.CapMap[server.ACLCap] = raw(restrictedRules)
 		w.CapMap[httpsCap] = []tailcfg.RawMessage{`{"action":`}
 		return w, nil, restrictedRules, true
-	case "wide-grants", "wide-grants-2":
+	case "wide-grants", "wide-grants-2", "wide-grants-3":
 		// several rules, the first naming several actions over an odd number of patterns, later ones adding
 		// patterns for one of those actions each: the rules apply exactly as written
 		rs := []refmodel.Rule{{Actions: []string{"get", "info"}, Patterns: []string{"m/a", "zz/1", "zz/2"}}, {Actions: []string{"get"}, Patterns: []string{"zz/3"}}, {Actions: []string{"info"}, Patterns: []string{"*"}}}
 		if kind == "wide-grants-2" {
 			rs = []refmodel.Rule{{Actions: []string{"info", "get", "put"}, Patterns: []string{"zz/1", "zz/2", "m/b"}}, {Actions: []string{"info"}, Patterns: []string{"zz/3"}}, {Actions: []string{"put"}, Patterns: []string{"m/*"}}, {Actions: []string{"get"}, Patterns: []string{"other"}}}
+		}
+		if kind == "wide-grants-3" {
+			// patterns with literal text on both sides of the wildcard, over names in which those literals
+			// would have to overlap to "match": m/*/a is not a grant on m/a, ot*ther none on other
+			rs = []refmodel.Rule{{Actions: []string{"get", "info", "put", "activate", "delete"}, Patterns: []string{"m/*/a", "ot*ther", "m/b*b"}}, {Actions: []string{"info"}, Patterns: []string{"m/*b"}}}
 		}
 		w := base()
 		w.CapMap[server.ACLCap] = raw(rs)
@@ -558,7 +563,7 @@ func runState(t *testing.T, r *evid.Run, dir string, stIdx int) {
 	for i, n := 0, r.N(3000, 20000); i < n; i++ {
 		ep := endpoints[rng.IntN(len(endpoints))]
 		one(req{Endpoint: ep, Method: "POST", CType: "application/json", Browser: "setec", Body: "valid", Op: genOp(ep),
-			Who: []string{"user", "tagged", "restricted", "https-cap", "both-caps", "empty-grants", "no-caps", "plain-cap", "tagged-with-owner-profile", "wide-grants", "wide-grants-2"}[rng.IntN(11)]})
+			Who: []string{"user", "tagged", "restricted", "https-cap", "both-caps", "empty-grants", "no-caps", "plain-cap", "tagged-with-owner-profile", "wide-grants", "wide-grants-2", "wide-grants-3"}[rng.IntN(12)]})
 	}
 	// client-side mapping through the real Client
 	cl := setec.Client{Server: "http://setec.verif/", DoHTTP: srv.ClientDo(remote)}
